@@ -51,7 +51,7 @@ def fission_assign_then_reduce(sig, case):
     """fission accepted although the loop-invariant pre-gap block assigns a location the
     post-gap block reduces into (Commutes_Fissioning's a1_no_loop_var relaxation)"""
     d = _diag(sig)
-    return sig.get("op") == "fission" and sig.get("kind") in ("diff", "poison") and d.get("pre_assigns_what_post_reduces") and not d.get("pre_mentions_iter")
+    return sig.get("op") in ("fission", "autofission") and sig.get("kind") in ("diff", "poison") and d.get("pre_assigns_what_post_reduces") and not d.get("pre_mentions_iter")
 
 
 def autofission_unchecked(sig, case):
@@ -65,7 +65,32 @@ def stage_mem_partial_write_no_load(sig, case):
     """stage_mem: the block writes part of a slice window and never reads it; the load is
     skipped but the store copies the whole window back (uninitialised cells)"""
     d = _diag(sig)
-    return sig.get("op") == "stage_mem" and d.get("block_writes_never_reads") and d.get("slice_window") and sig.get("kind") in ("diff", "poison", "e2e:poison")
+    return (
+        sig.get("op") == "stage_mem"
+        and d.get("slice_window")
+        and d.get("store_emitted")
+        and not d.get("load_emitted")
+        and sig.get("kind") in ("diff", "poison", "e2e:poison")
+    )
+
+
+def autolift_alloc_dependent_extent(sig, case):
+    """autolift_alloc (deprecated DoLiftAlloc) lifts an allocation whose extent mentions the
+    iterator of the loop it leaves (lift_alloc checks this)"""
+    return sig.get("op") == "autolift_alloc" and sig.get("monitor") == "validate" and sig.get("kind") == "use_out_of_scope" and _diag(sig).get("oos_binder") == "iter"
+
+
+def replace_size_or_assert_unchecked(sig, case):
+    """replace / unification passes an inferred value <= 0 for a size parameter or violates a
+    callee assertion (LoopIR_unification.py TODO 'Asserts' / 'Size')"""
+    return sig.get("op") == "replace" and sig.get("monitor") == "safety" and sig.get("kind") in ("event:call_size", "event:call_pred")
+
+
+def cfg_read_through_call_arg_unseen(sig, case):
+    """a configuration field passed as a (by-reference) call argument is not counted as a read
+    of that field by the effect analysis (stmts_effs skips ReadConfig arguments), so a write
+    to the field can be deleted or moved across the call"""
+    return bool(_diag(sig).get("cfg_read_as_call_arg")) and sig.get("op") in EFFECT_CHECKED_OPS and sig.get("monitor") in ("equiv",)
 
 
 # ---------------------------------------------------------------- C05
